@@ -83,6 +83,32 @@ def run(ctx):
         ctx.finding("C16.M1", D, "no-other-salt-source", "SDJWTDisclosure::new also draws randomness (%s) in the deterministic build" % other[0].get("resolved"), line=other[0].get("line"), config=C)
     else:
         ctx.ok("C16.M1", D, "no-other-salt-source", "no RNG / real salt generator call in SDJWTDisclosure::new", config=C)
+    # one queued salt per *issued* disclosure: every constructed disclosure (= one pop) is recorded in all_disclosures on every path to the
+    # next iteration / return; a disclosure that is built and dropped (an eagerly evaluated argument, a speculative build) burns a salt
+    nctor = 0
+    for f_ in I.fns:
+        fv_ = vals(f_)
+        heads_ = set(h for (_, h) in cfg.back_edges(f_))
+        rets_ = cfg.return_blocks(f_)
+        for hb, t_ in f_.calls():
+            if t_.get("resolved") not in I.disc_ctors:
+                continue
+            nctor += 1
+            hn = fv_.call_node(hb)
+            pushed = []
+            for b2, t2 in f_.calls():
+                if t2.get("name") == "push":
+                    n2 = fv_.call_node(b2)
+                    r = peel(n2.kids[0])
+                    if r.kind == "field" and r.d.get("name") == "all_disclosures" and len(n2.kids) > 1 and may(n2.kids[1], lambda x: x is hn):
+                        pushed.append(b2)
+            rb = cfg.reach_strict(f_, hb, removed_blocks=pushed)
+            if pushed and not any(h in rb for h in heads_) and not any(r in rb for r in rets_):
+                ctx.ok("C16.M1", f_, "constructed-is-issued", "every disclosure constructed here (one salt popped) is recorded in all_disclosures before the next iteration / return", line=t_.get("line"), config=C)
+            else:
+                ctx.finding("C16.M1", f_, "constructed-is-issued", "a disclosure is constructed (popping a queued salt) on a path where it is not issued: the queue is consumed by something other than the "
+                            "disclosures, so later disclosures get the wrong salts (or the queue runs dry)", line=t_.get("line"), config=C)
+    ctx.floor("C16.M1", "disclosure constructor call sites", nctor, 2, config=C)
     # decoys do not consume the queue
     g = I.g
     for (b, n) in I.sd_pushes:
